@@ -84,6 +84,7 @@ class Result:
         self.size = size
         self.replayed = None
         self.replay = None
+        self.needs_reveal = False
 
     def as_dict(self):
         return {'id': self.oid, 'kind': self.kind, 'clause': self.clause, 'status': self.status, 'backend': self.backend,
@@ -104,7 +105,7 @@ def _match_raises(E, c, ev, module):
     return None
 
 
-def verify_contract(reg, c, timeout_ms=None, seed=0, collect_paths=False):
+def verify_contract(reg, c, timeout_ms=None, seed=0, collect_paths=False, budget_s=None):
     """returns dict: function info + list of Result"""
     t_start = time.time()
     info = {'target': c.target, 'results': [], 'paths': 0, 'status': 'ok', 'assumed': c.assumed}
@@ -126,7 +127,7 @@ def verify_contract(reg, c, timeout_ms=None, seed=0, collect_paths=False):
     reg.force_inline = set(c.inline) | {c.target}
     reg.opaque_now = set(c.opaque)
     reg.active = c
-    E.deadline = time.time() + float(os.environ.get('VERIF_UNIT_BUDGET_S', '900'))
+    E.deadline = time.time() + float(budget_s or os.environ.get('VERIF_UNIT_BUDGET_S', '900'))
     a = fi.node.args
     pnames = [x.arg for x in a.posonlyargs + a.args] + [x.arg for x in a.kwonlyargs]
     if a.vararg:
@@ -370,6 +371,16 @@ def _triage_sat(reg_c, oid, kind, clause, pc, goal, st, r, pnames, altdesc, time
             res = Result(oid, kind, clause, 'violated', r['backend'], total, witness=wit, path=altdesc,
                          detail='counter-model found and confirmed by native replay')
             res.replayed, res.replay = True, d.get('replay')
+            return res
+        if verdict is False and c.opaque:
+            # this proof keeps spec functions opaque: the model interprets them arbitrarily, so its input is not meaningful and a
+            # native refutation of THAT input says nothing about the obligation.  The obligation held on the unchanged tree and
+            # now has a counter-model: violated; a concrete failing input is searched afterwards with the spec functions revealed
+            # (vf/pyunit.py reveal_search)
+            res = Result(oid, kind, clause, 'violated', r['backend'], total, witness=None, path=altdesc,
+                         detail='counter-model found (spec functions opaque in this proof: the model is not a concrete input)')
+            res.replayed, res.replay = False, None
+            res.needs_reveal = True
             return res
         if verdict is None:
             res = Result(oid, kind, clause, 'violated', r['backend'], total, witness=wit, path=altdesc,
